@@ -367,7 +367,7 @@ PROPERTIES = {
                        "the call; message equality, independent sanitiser, size pass == encode == decode advance with canaries. "
                        "Held on everything generated."),
         "level_note": ("Types are sampled from a catalog (not enumerated); containers/user types use {} only; wide strings and "
-                       "Windows paths out of scope; two known findings excluded by construction and probed."),
+                       "Windows paths out of scope; one known finding (F19, pinned by the repository's own test) excluded by construction and probed; F4 is fixed in /repo."),
         "rule": ("case = 1-3 back-to-back statements, each = (shape from the 167-shape catalog, runtime format string, generated "
                  "values); non-trivial = a statement with >= 1 variable-length argument AND (>= 2 arguments OR a spec); "
                  "distinct = FNV hash of the rendered case"),
@@ -506,7 +506,7 @@ PROPERTIES = {
                        "metadata rewritten in place); message, ordered key/value pairs and the JsonFileSink line are checked; the 27 "
                        "LOGJ expansions are compared exhaustively once per process. Held on everything generated."),
         "level_note": ("Single thread that is also the backend; scalar/string argument types only; JsonConsoleSink shares the code "
-                       "path but is not exercised; three known findings (F4, F5, F17) excluded by construction and probed."),
+                       "path but is not exercised; one known finding (F5: a value containing the 3-byte separator) excluded by construction and probed; F4 and F17 were found here and are fixed in /repo."),
         "rule": ("case = 1-20 statements over 1-6 templates (token sequences of literal / {{ / }} / {name} / {name:spec}) with "
                  "generated values, interleaved with named-argument LOG_BACKTRACE statements that are stored and never written "
                  "(transit buffer of 4 reused slots); non-trivial = >= 2 named placeholders AND (an escaped brace OR a spec), OR a cached template "
